@@ -750,7 +750,7 @@ class DeferQueue:
 
     def __init__(self):
         self._writes = []
-        self._pending_offsets = set()
+        self._write_count = 0
         self._next_offset = 0
 
     def request_writes(self, offset, data):
@@ -766,23 +766,30 @@ class DeferQueue:
         each method call.
 
         """
-        if offset < self._next_offset:
+        if offset < self._next_offset and (
+            offset + len(data) <= self._next_offset
+        ):
             # This is a request for a write that we've already
             # seen.  This can happen in the event of a retry
             # where if we retry at at offset N/2, we'll requeue
             # offsets 0-N/2 again.
             return []
         writes = []
-        if offset in self._pending_offsets:
-            # We've already queued this offset so this request is
-            # a duplicate.  In this case we should ignore
-            # this request and prefer what's already queued.
-            return []
-        heapq.heappush(self._writes, (offset, data))
-        self._pending_offsets.add(offset)
-        while self._writes and self._writes[0][0] == self._next_offset:
+        # Requests for the same offset are kept in arrival order so the
+        # one that was queued first wins.
+        heapq.heappush(self._writes, (offset, self._write_count, data))
+        self._write_count += 1
+        while self._writes and self._writes[0][0] <= self._next_offset:
             next_write = heapq.heappop(self._writes)
-            writes.append({'offset': next_write[0], 'data': next_write[1]})
-            self._pending_offsets.remove(next_write[0])
-            self._next_offset += len(next_write[1])
+            next_data = next_write[2]
+            # A retried request can be chunked differently than the
+            # attempt before it, so a write may overlap data that was
+            # already handed out.  Only the unseen tail is written.
+            seen = self._next_offset - next_write[0]
+            if seen:
+                if seen >= len(next_data):
+                    continue
+                next_data = next_data[seen:]
+            writes.append({'offset': self._next_offset, 'data': next_data})
+            self._next_offset += len(next_data)
         return writes
